@@ -703,7 +703,7 @@ pub fn def() -> PropDef {
         assumptions: vec![
             "texts with more than 1000 tokens or nesting deeper than 100 are outside the property (counted)",
             "differentiation follow-ups are issued for nesting <= 16 and <= 40 tokens only (the stack clause of the property is about parsing; differentiating long power chains takes seconds and must not be mistaken for a hang)",
-            "a case that does not return within 30 s is a hang",
+            "a case that does not return within 90 s is a hang",
             "worker threads of the in-process sub-checks have 64 MiB stacks; the nest sub-check uses child processes with 8 MiB (the Linux main-thread default)",
         ],
         subs: vec![
